@@ -1,6 +1,7 @@
 (* C16/InCircle — laws of the exact in-circle determinant (ring identities and sign arguments over Z). *)
 From Coq Require Import ZArith List Bool Lia.
-From GeosV Require Import Lib.KernelDefs C16.Defs.
+From GeosV.Lib Require Import KernelDefs.
+From GeosV.C16 Require Import Defs.
 Import ListNotations.
 Local Open Scope Z_scope.
 
